@@ -163,6 +163,9 @@ type c26Scen struct {
 	// connLoss adds a fault actor that severs the first connection at a point chosen by the
 	// scheduler (any point after it exists): a call in flight then fails or is retried.
 	connLoss bool
+	// lateFault makes the fault actor a low-priority goroutine: by default the fault happens only when nothing else can
+	// run, and a fault at any given point costs exactly one deviation
+	lateFault bool
 }
 
 func c26Scens() []c26Scen {
@@ -170,13 +173,18 @@ func c26Scens() []c26Scen {
 	del := func(s int) c26Op { return c26Op{kind: "del", seq: s} }
 	next, list, prev := c26Op{kind: "next"}, c26Op{kind: "list"}, c26Op{kind: "prev"}
 	return []c26Scen{
-		{"2x2-add-list-add-next", nil, [][]c26Op{{add("a"), list}, {add("b"), next}}, false, false},
-		{"3x1-add-add-del", []string{"z"}, [][]c26Op{{add("a")}, {add("b")}, {del(1)}}, false, false},
-		{"shared-client-2-adds", nil, [][]c26Op{{add("a")}, {add("b")}}, true, false},
-		{"2x2-add-del-prev-list", []string{"z"}, [][]c26Op{{add("a"), del(1)}, {prev, list}}, false, false},
-		{"2x2-adds", nil, [][]c26Op{{add("a"), add("b")}, {add("c"), add("d")}}, false, false},
-		{"connection-lost-during-adds", nil, [][]c26Op{{add("a"), add("b")}, {add("c")}}, false, true},
-		{"connection-lost-add-then-list", nil, [][]c26Op{{add("a"), list}, {next}}, false, true},
+		{"2x2-add-list-add-next", nil, [][]c26Op{{add("a"), list}, {add("b"), next}}, false, false, false},
+		{"3x1-add-add-del", []string{"z"}, [][]c26Op{{add("a")}, {add("b")}, {del(1)}}, false, false, false},
+		{"shared-client-2-adds", nil, [][]c26Op{{add("a")}, {add("b")}}, true, false, false},
+		{"2x2-add-del-prev-list", []string{"z"}, [][]c26Op{{add("a"), del(1)}, {prev, list}}, false, false, false},
+		{"2x2-adds", nil, [][]c26Op{{add("a"), add("b")}, {add("c"), add("d")}}, false, false, false},
+		// a reader that first asks for the next sequence number and then lists: an add that is only half visible
+		// (number taken, command not stored yet) is not linearizable
+		{"add-vs-next-then-list", nil, [][]c26Op{{add("a")}, {next, list}}, false, false, false},
+		{"add-vs-list-then-next", nil, [][]c26Op{{add("a")}, {list, next}}, false, false, false},
+		{"2-adds-vs-next-list-prev", []string{"z"}, [][]c26Op{{add("a"), add("b")}, {next, list, prev}}, false, false, false},
+		{"connection-lost-during-adds", nil, [][]c26Op{{add("a"), add("b")}, {add("c")}}, false, true, false},
+		{"connection-lost-add-then-list", nil, [][]c26Op{{add("a"), list}, {next}}, false, true, false},
 	}
 }
 
@@ -208,14 +216,19 @@ func c26Body(sc c26Scen) func() {
 		server := rpc.NewServer()
 		server.RegisterName(api.ServiceName, &service{api.Version, st, nil})
 		var serverConns []net.Conn
+		served := 0 // connections whose ServeConn has returned (it returns after its pending handlers have finished)
 		vsched.DialHook = func(network, addr string) (net.Conn, error) {
 			c1, c2 := vsched.Pipe()
 			serverConns = append(serverConns, c2)
-			vsched.Go(func() { server.ServeConn(c2) })
+			vsched.Go(func() { server.ServeConn(c2); served++ })
 			return c1, nil
 		}
 		if sc.connLoss {
-			vsched.Go(func() {
+			spawn := vsched.Go
+			if sc.lateFault {
+				spawn = vsched.GoLow
+			}
+			spawn(func() {
 				vsched.WaitUntil("first-connection-exists", func() bool { return len(serverConns) > 0 })
 				serverConns[0].Close()
 				vsched.Logf("fault: first connection severed")
@@ -258,6 +271,9 @@ func c26Body(sc c26Scen) func() {
 		for _, c := range clients {
 			c.Close()
 		}
+		// a call that failed on a severed connection may still be executing in the daemon: the final state is read
+		// once every connection has been served to the end
+		vsched.WaitUntil("daemon-quiescent", func() bool { return served == len(serverConns) })
 		final, _ := st.CmdsWithSeq(0, 100)
 		nextSeq, _ := st.NextCmdSeq()
 		st.Close()
@@ -291,11 +307,23 @@ func c26Linearizable(sc c26Scen, log []string) (bool, string) {
 	if hist != "" {
 		for _, part := range strings.Split(hist, " ; ") {
 			// "c0.1 AddCmd(a)=1 @0-3"
-			f := strings.Fields(part)
-			eq := strings.LastIndex(f[1], "=")
+			// (an error text may contain spaces and '=': split at the last " @" and at the known operation text)
+			at := strings.LastIndex(part, " @")
+			mid := part[strings.Index(part, " ")+1 : at]
 			var call, ret int
-			fmt.Sscanf(f[2], "@%d-%d", &call, &ret)
-			evs = append(evs, ev{opOf[f[1][:eq]], f[1][eq+1:], call, ret})
+			if n, _ := fmt.Sscanf(part[at+1:], "@%d-%d", &call, &ret); n != 2 {
+				panic("c26: cannot parse history event " + part)
+			}
+			found := false
+			for text, o := range opOf {
+				if strings.HasPrefix(mid, text+"=") {
+					evs = append(evs, ev{o, mid[len(text)+1:], call, ret})
+					found = true
+				}
+			}
+			if !found {
+				panic("c26: unknown operation in history event " + part)
+			}
 		}
 	}
 	n := len(evs)
@@ -351,7 +379,15 @@ func vsLastDaemon(log []string, prefix string) string {
 
 func c26Scenarios() []vshard.Scenario {
 	var scs []vshard.Scenario
+	all := c26Scens()
 	for _, sc := range c26Scens() {
+		if sc.connLoss {
+			sc.name += "/late-fault"
+			sc.lateFault = true
+			all = append(all, sc)
+		}
+	}
+	for _, sc := range all {
 		sc := sc
 		scs = append(scs, vshard.Scenario{Name: sc.name, Body: c26Body(sc), Oracle: func(r *vsched.Result) (string, string) {
 			if r.Deadlock {
@@ -386,7 +422,7 @@ func TestVerifC26(t *testing.T) {
 		return
 	}
 	vk.Run(t, "C26", "exploration", func(c *vk.Ctx) {
-		c.Rule(fmt.Sprintf("7 closed worlds (two of them with a fault actor that severs a connection at a scheduler-chosen point; a call that then returns an error may or may not have taken effect, a call that returns success must have taken effect exactly once): the real rpc.Server + daemon service + bbolt store, 2-3 real daemon clients (one scenario: two goroutines sharing one client) issuing AddCmd/DelCmd/NextCmdSeq/CmdsWithSeq/PrevCmd over in-memory scheduler-aware connections; every schedule with <=%d departures from the default goroutine; each complete call/return history plus the final store content must be linearizable w.r.t. the sequential store model (brute force over all orders); class = distinct (scenario, history)", cfg.Bound))
+		c.Rule(fmt.Sprintf("12 closed worlds (three with a reader that asks for the next sequence number and lists while another client adds; four with a fault actor that severs a connection at a scheduler-chosen point - as an ordinary goroutine and as a low-priority actor whose step costs exactly one deviation wherever it is placed; a call that then returns an error may or may not have taken effect, a call that returns success must have taken effect exactly once): the real rpc.Server + daemon service + bbolt store, 2-3 real daemon clients (one scenario: two goroutines sharing one client) issuing AddCmd/DelCmd/NextCmdSeq/CmdsWithSeq/PrevCmd over in-memory scheduler-aware connections; every schedule with <=%d departures from the default goroutine; each complete call/return history plus the final store content must be linearizable w.r.t. the sequential store model (brute force over all orders); class = distinct (scenario, history)", cfg.Bound))
 		c.Assume("pkg/daemon, pkg/rpc rewritten for the controlled scheduler; scheduling points before every db.Update/db.View in pkg/store; bbolt's own transaction isolation is trusted (no points inside bbolt); net.Dial is replaced by an in-memory duplex connection whose reads are scheduling points")
 		vshard.Run(c, c26Scenarios(), cfg)
 	})
